@@ -599,10 +599,14 @@ static std::string do_cmd(const std::vector<Tok> &t) {
     static const size_t sizes[] = {16, 24, 40, 56, 72, 88, 104, 136, 200, 264};
     std::vector<void *> blocks;
     int n = t.size() > 1 ? atoi(t[1].s.c_str()) : 64;
-    for (int r = 0; r < n; r++)
+    for (int r = 0; r < 2 * n; r++)
       for (size_t z : sizes) { void *q = malloc(z); if (q) { memset(q, 0x5a, z); blocks.push_back(q); } }
-    for (void *q : blocks) free(q);
-    return "{\"shuffled\":" + jint((long)blocks.size()) + "}";
+    // every second block is freed, in ascending order; the blocks in between stay allocated (kept for the life of the
+    // process) so that the freed ones cannot be merged back into one large block
+    size_t freed = 0;
+    for (size_t i = 0; i < blocks.size(); i += 2) { free(blocks[i]); freed++; }
+    blocks.clear();
+    return "{\"shuffled\":" + jint((long)freed) + "}";
   }
   if (op == "registry") return "{\"count\":" + jint(Peek::count()) + "}";
   if (op == "ping") return "{\"pong\":1}";
